@@ -13,6 +13,7 @@ import (
 func init() {
 	zzsv.Register("ZZ_C08_Text", ZZ_C08_Text)
 	zzsv.Register("ZZ_C08_Tokens", ZZ_C08_Tokens)
+	zzsv.Register("ZZ_C08_Holes", ZZ_C08_Holes)
 	zzsv.Register("ZZ_C08_RuntimeFaults", ZZ_C08_RuntimeFaults)
 	zzsv.Register("ZZ_C08_OddObjects", ZZ_C08_OddObjects)
 }
@@ -76,6 +77,45 @@ func ZZ_C08_Tokens(sv *zzsv.T) {
 	ok := zzDrive(sv, src, nil)
 	sv.Observe("ok", ok)
 	sv.Assert("C08.tokens.nopanic", ok)
+}
+
+// longer texts than the token sequences reach: a program skeleton around
+// every construct, with holes (@) that take any token
+var zzSkeletons = []string{
+	"if ( @ ) { return @ ; }",
+	"x . @ ( 1 ) { return @ ; }",
+	"foreach k , v in @ { @ ; }",
+	"function f ( a , @ ) { local @ ; } f( 1 , 2 ) ;",
+	"switch ( x ) { case @ { } default { @ } }",
+	"x = { \"k\" : @ , @ : 1 } ;",
+	"x = [ 1 , @ ] [ @ ] ;",
+	"return a ? @ : @ ;",
+	"while ( a @ b ) { a @ ; }",
+	"f( @ , @ ) ;",
+	"a . b . @ = @ ;",
+	"@ x @ 1 ;",
+	"x = a @ @ b ;",
+	"if ( a ) { } else @ { @ }",
+	"function @ ( ) { return @ }",
+	"foreach @ in [ 1 ] { } return @ ;",
+}
+
+// ZZ_C08_Holes: every pair of tokens in the holes of every skeleton:
+// Prepare, Dump, Execute and Run never panic.
+func ZZ_C08_Holes(sv *zzsv.T) {
+	sk := zzSkeletons[sv.Choice("skeleton", len(zzSkeletons))]
+	src := ""
+	for i := 0; i < len(sk); i++ {
+		if sk[i] == '@' {
+			src += zzTokens[sv.Choice("hole", len(zzTokens))]
+		} else {
+			src += string(sk[i])
+		}
+	}
+	sv.Note("script", src)
+	ok := zzDrive(sv, src, nil)
+	sv.Observe("ok", ok)
+	sv.Assert("C08.holes.nopanic", ok)
 }
 
 var zzFaultScripts = []string{
